@@ -234,6 +234,18 @@ class Run:
 
     # -- finish
     def finish(self, extra_cov: dict | None = None):
+        try:        # numeric-argument path probes (harness/cas.py): symbolic path right, numeric path different
+            from harness import cas as _cas
+            for m in _cas.EAGER:
+                lab = m["label"] if isinstance(m["label"], str) else "/".join(str(x) for x in m["label"])
+                self.violation(f"{lab}/numeric_argument_path", "the operation returns a different value when its argument is built from numbers "
+                               "(elem(ca.DM(...))) than when it is symbolic and evaluated at the same numbers", m)
+            _cas.EAGER.clear()
+            if _cas.STATS["probes"] or _cas.STATS["skipped"]:
+                self.counts["numeric_path_probes"] = _cas.STATS["probes"]
+                self.counts["numeric_path_probes_skipped"] = _cas.STATS["skipped"]
+        except ImportError:
+            pass
         known = [k for k in load_known() if k["property"] == self.pid]
         new = []
         for key, v in sorted(self.viol.items()):
